@@ -921,7 +921,7 @@ func genCase(t *rapid.T, g genOpts) kase {
 			if rapid.IntRange(0, 19).Draw(t, "slash") == 19 {
 				r.U += "/"
 			}
-			r.M = rapid.SampledFrom([]string{"GET", "GET", "GET", "POST", "POST", "DELETE"}).Draw(t, "method")
+			r.M = rapid.SampledFrom([]string{"GET", "GET", "GET", "POST", "POST", "DELETE", "get"}).Draw(t, "method") // "get": a method token is case-sensitive text, logged as received
 			r.S = rapid.SampledFrom([]int{200, 200, 200, 201, 404, 429, 500, 503}).Draw(t, "status")
 			r.D = rapid.OneOf(rapid.IntRange(0, 1000), rapid.IntRange(0, 1_000_000)).Draw(t, "dur")
 			r.TD = r.D + rapid.IntRange(0, 500).Draw(t, "extra")
